@@ -528,6 +528,15 @@ let run_prog_gen (kept : bool) dt (prog : string) (impl : string) : outcome =
                 let gn = if gn = "other" then "L" ^ String.concat "," (List.map (layout_tag before) ids) else gn in
                 (* TensorMul with negative axes (named in the glue: the Coq guard has no case for it) *)
                 let gn = if f.(0) = "tmul" && List.exists (fun x -> x < 0) (ints f.(3) @ ints f.(4)) then "negative-axes" else gn in
+                (* found by the proof of zhistory_refines4 (RefineProofs4.v: zextra4): Dense.Reduce with a
+                   function other than a sum along the LAST axis (not the first) folds from the default value *)
+                let gn = if gn = "UNGUARDED" && f.(0) = "reducefn" && f.(1) <> "sum" then begin
+                    match get_t before (nat_of_int (int_of_string f.(2))) with
+                    | Some d ->
+                      let rk = List.length d.d_ap.shp and ax = int_of_string f.(3) in
+                      if ax = rk - 1 && ax <> 0 then "default-seed" else gn
+                    | None -> gn
+                  end else gn in
                 (* two guards found by the proof of zhistory_refines (RefineProofs2.v: zextra_ok) and named
                    here: in-place operations on PARTLY overlapping operands, and comparisons of a
                    one-element view over a wider window *)
